@@ -30,6 +30,26 @@ Fixpoint reassign_rev (s : id) (e : expr) (rl : list stmt) (last : bool) : list 
 Definition reassign (l : list stmt) (s : id) (e : expr) : list stmt :=
   rev (reassign_rev s e (rev l) true).
 
+Definition has_ode_any (l : list stmt) : bool :=
+  existsb (fun st => match st with Ode _ _ => true | _ => false end) l.
+
+(* ---- Statements.subs for a map Symbol -> expression (keys that are assignment targets are renamed
+   only when mapped to a symbol; the check's generator substitutes leaf symbols) ------------------ *)
+Definition subs_lhs (m : list (id * expr)) (s : id) : id :=
+  match alookup m s with Some (Sym s') => s' | _ => s end.
+Definition subs_stmt_map (m : list (id * expr)) (st : stmt) : stmt :=
+  match st with
+  | Assign s e => Assign (subs_lhs m s) (subs_map m e)
+  | Ode a r => Ode a r
+  end.
+Definition subs_stmts (m : list (id * expr)) (l : list stmt) : list stmt := map (subs_stmt_map m) l.
+
+(* guard: the substituted symbols and the symbols of their replacements are never assigned *)
+Definition g_subs_leaf (m : list (id * expr)) (l : list stmt) : bool :=
+  negb (has_ode_any l) &&
+  forallb (fun kv => negb (memp (fst kv) (flat_map defs l)) &&
+                     negb (interp_nonempty (free_syms (snd kv)) (flat_map defs l))) m.
+
 (* ---- full_expression: for statement in reversed(self): expr = expr.subs({sym: rhs}) -------- *)
 Definition has_ode (l : list stmt) : bool :=
   existsb (fun st => match st with Ode _ _ => true | _ => false end) l.
